@@ -1,3 +1,103 @@
-import LibconfigModel.Step
+import LibconfigModel.StringSpec
+import LibconfigModel.Scanner
+import LibconfigModel.Properties.C08
+import LibconfigModel.Proofs.C01
+/-
+  C01 — written configurations read back as the same configuration: the per-lexeme
+  round-trip theorems (every rendering the writer produces for a scalar is read back by the
+  rule action of the scanner as the same value).  Statements only; helper lemmas live in
+  LibconfigModel/Proofs/C01.lean.  The composition through the compiled scanner and parser
+  (token boundaries, grammar) is decided by the write → read → compare oracle of the check.
+-/
 namespace Libconfig.C01
+
+/-! ### integers: every 32/64-bit value, decimal and hexadecimal rendering -/
+
+/-- `%d` of an int is read back by the `{integer}` rule as the same int -/
+theorem C01_int_dec (t32 t64 e : Nat) (v : Int) (h : fits32 v = true) :
+    numericTok (.tokInteger t32 t64 e) (intToDec v) = (t32, { ival := v }) := by
+  rw [C01P.intToDec_eq, C08.C08_integer t32 t64 e _ _ (C01P.natToDec_ne_nil _) (C01P.natToDec_digits _),
+    C01P.literalValue_intToDec]
+  simp only [h, if_true]
+
+/-- `%lldL` of a 64-bit int is read back by the `{integer64}` rule as the same value -/
+theorem C01_int64_dec (t e : Nat) (v : Int) (h : fits64 v = true) :
+    numericTok (.tokInteger64 t e) (intToDec v ++ [76]) = (t, { ival := v }) := by
+  rw [C01P.intToDec_eq]
+  have hk := C08.C08_integer64 t e (C01P.sgOf v) (natToDec v.natAbs) 1 (Nat.le_refl 1)
+    (C01P.natToDec_ne_nil _) (C01P.natToDec_digits _)
+  rw [show C08.sufBytes 1 = [76] from rfl] at hk
+  rw [hk, C01P.literalValue_intToDec]
+  simp only [h, if_true]
+
+/-- `0x%X` of an int (its unsigned 32-bit pattern) is read back by the `{hex}` rule as the same int -/
+theorem C01_int_hex (t e : Nat) (v : Int) (h : fits32 v = true) :
+    numericTok (.tokHex t e) ([48, 120] ++ hexOfInt 32 v) = (t, { ival := v }) := by
+  unfold hexOfInt
+  rw [C01P.pow32, C08.C08_hex t e 120 (.inl rfl) _ (C01P.natToHex_ne_nil _) (C01P.natToHex_digits _),
+    C01P.digitsVal_natToHex, if_pos (C01P.hex32_lt v), C01P.wrap32_hex v h]
+
+/-- `0x%llXL` is read back by the `{hex64}` rule as the same value -/
+theorem C01_int64_hex (t e : Nat) (v : Int) (h : fits64 v = true) :
+    numericTok (.tokHex64 t e) ([48, 120] ++ hexOfInt 64 v ++ [76]) = (t, { ival := v }) := by
+  unfold hexOfInt
+  have hk := C08.C08_hex64 t e 120 (.inl rfl) (natToHexUpper (v % 18446744073709551616).toNat) 1
+    (Nat.le_refl 1) (C01P.natToHex_ne_nil _) (C01P.natToHex_digits _)
+  rw [show C08.sufBytes 1 = [76] from rfl] at hk
+  rw [C01P.pow64, hk, C01P.digitsVal_natToHex, if_pos (C01P.hex64_lt v), C01P.wrap64_hex v h]
+
+/-- what the writer prints for integers is exactly those renderings -/
+theorem C01_writer_int (bufLen : Nat) (c : Config) (n : Node) (h : n.ty = T_INT) :
+    writeScalar bufLen c n =
+      if effFormat c n = FMT_HEX then [48, 120] ++ hexOfInt 32 n.ival else intToDec n.ival := by
+  simp [writeScalar, h, T_BOOL, T_INT, FMT_HEX]
+
+theorem C01_writer_int64 (bufLen : Nat) (c : Config) (n : Node) (h : n.ty = T_INT64) :
+    writeScalar bufLen c n =
+      if effFormat c n = FMT_HEX then [48, 120] ++ hexOfInt 64 n.ival ++ [76] else intToDec n.ival ++ [76] := by
+  simp [writeScalar, h, T_BOOL, T_INT, T_INT64, FMT_HEX]
+
+/-! ### strings: escaping is inverted by the documented reading of a literal, byte for byte -/
+
+/-- For every NUL-free byte string `s` (bytes 1..255) the escaped text followed by the closing
+quote denotes exactly `s`, and reading stops right after the quote — whatever follows. -/
+theorem C01_string (s rest : Bytes) (hs : ∀ b ∈ s, 1 ≤ b ∧ b < 256) :
+    unescape ((escapeString s).length + 1) [] (escapeString s ++ [34] ++ rest) = some (s, rest) := by
+  have _ := hs
+  rw [C01P.unescape_escape s _ [] rest (Nat.le_refl _), List.nil_append]
+
+/-- the writer prints a string setting as quote, escaped bytes, quote (NULL as the empty string) -/
+theorem C01_writer_string (bufLen : Nat) (c : Config) (n : Node) (h : n.ty = T_STRING) :
+    writeScalar bufLen c n = [34] ++ escapeString (n.sval.getD []) ++ [34] := by
+  simp [writeScalar, h, T_BOOL, T_INT, T_INT64, T_FLOAT, T_STRING]
+
+/-! ### booleans -/
+theorem C01_writer_bool (bufLen : Nat) (c : Config) (n : Node) (h : n.ty = T_BOOL) :
+    writeScalar bufLen c n = if n.ival != 0 then [116, 114, 117, 101] else [102, 97, 108, 115, 101] := by
+  simp [writeScalar, h, T_BOOL, C01P.bytes_true, C01P.bytes_false]
+
+/-! ### floats: the text written is a float literal whose value is read back -/
+
+/-- characters of a float rendering: digits, sign, point, exponent marker -/
+def floatChar (c : Nat) : Bool := isDigit c || c == 45 || c == 43 || c == 46 || c == 101
+
+/-- For a finite double and a precision within the documented range, the written text consists
+of float-literal characters only and contains a decimal point or an exponent (so the scanner
+reads it as a float, never as an integer). -/
+theorem C01_float_shape (b : Nat) (prec : Nat) (sci : Bool) (hb : F64.isFinite b = true) (hb64 : b < 2 ^ 64)
+    (hp : prec ≤ 15) :
+    (∀ ch ∈ formatDouble 341 b prec sci, floatChar ch = true) ∧
+    ((formatDouble 341 b prec sci).contains 46 = true ∨ (formatDouble 341 b prec sci).contains 101 = true) := by
+  have _ := hb64; have _ := hp
+  exact C01P.formatDouble_shape 341 b prec sci hb
+
+/-- and the `{float}` rule stores exactly the correctly rounded value of that text -/
+theorem C01_float_readback (t e : Nat) (w : Bytes) (h : F64.isInf (F64.strtod w) = false) :
+    numericTok (.tokFloat t e) w = (t, { fval := F64.strtod w }) := by
+  rw [C08.C08_float, h]; rfl
+
+/-! Non-vacuity -/
+example : unescape 100 [] (escapeString [97, 34, 92, 10, 7, 200] ++ [34, 59]) = some ([97, 34, 92, 10, 7, 200], [59]) := by decide
+example : numericTok (.tokHex 260 277) ([48, 120] ++ hexOfInt 32 (-1)) = (260, { ival := -1 }) := by decide
+
 end Libconfig.C01
